@@ -238,7 +238,7 @@ macro_rules! single {
 single!(KBasic, Basic, BASIC, call_basic, m, []);
 single!(KReadOnly, ReadOnly, READONLY, call_readonly, r, []);
 single!(KShapes, Shapes, SHAPES, call_shapes, m, []);
-single!(KIntRes, IntRes, INTRES, call_intres, m, []);
+single!(KIntRes, RawIntRes, INTRES_SINGLE, call_intres_single, m, []);
 single!(KAttrs, Attrs, ATTRS, call_attrs, m, []);
 single!(KLife, Life<'static, u64>, LIFE, call_life, m, []);
 single!(KDup, Dup, DUP, call_dup, m, [O: IntoDyn<KDup>,]);
